@@ -28,10 +28,10 @@ def run(ctx):
     # the component listings; what that does to the listings is C03's business (findings F1 F2 F3 F6 are tolerated here)
     ctx.tolerated = {"F1", "F2", "F3", "F6"}
     runs = _world.random_runs(ctx, 150 if q else 1500, kinds=("plain", "grid"), mods="any", length=60, weights=W, nseeds=200, n_ids=4,
-                              tags=(None, 0, 1, 7))
+                              tags=(None, 0, 1, 7, 1000, -7))
     _world.validate_runs(ctx, runs, "populations whose resident agents gain and lose components", expect_clean=False)
     n = 300 if q else 3000
     for kinds, label in ((("plain",), "plain environment"), (("space", "grid"), "spatial worlds")):
         runs = _world.random_runs(ctx, n, kinds=kinds, mods="clean", length=60, weights=W, nseeds=200, n_ids=4,
-                                  tags=(None, None, 0, 1, 7, 5), late_install=True)
+                                  tags=(None, None, 0, 1, 7, 5, 1000, 70000, -7), late_install=True)
         _world.validate_runs(ctx, runs, f"random populations with arbitrary component sets and tags, templates of 0..3 types, tag filters, {label}")
